@@ -50,6 +50,11 @@ func c07Check(c c07Case) vfResult {
 			r.Err = fmt.Errorf("DetectReader (after a detection under limit %d): header %s has a BOM or no binary-data byte, but result is the bare root", c.PrevLimit, vfQ(h))
 		}
 	}
+	if r.Err == nil && c.Reader {
+		if err := vfRoutes(c.X, c.Limit, m); err != nil {
+			r.Err = fmt.Errorf("%v; x=%s", err, vfQ(c.X))
+		}
+	}
 	// non-trivial: the header carries a control/high byte or a BOM, or a binary byte sits
 	// directly beyond the limit
 	for _, b := range h {
@@ -132,7 +137,7 @@ func TestVerif_C07(t *testing.T) {
 			Prop: "C07", Name: "gen", Checks: vfN(60000, 40000000),
 			Gen: func(t *rapid.T) c07Case {
 				var x []byte
-				switch rapid.IntRange(0, 4).Draw(t, "k") {
+				switch rapid.IntRange(0, 5).Draw(t, "k") {
 				case 0: // text with 0..3 injected arbitrary bytes
 					x = []byte(vfGenTextish(t))
 					for i, n := 0, rapid.IntRange(0, 3).Draw(t, "ninj"); i < n; i++ {
@@ -155,8 +160,15 @@ func TestVerif_C07(t *testing.T) {
 					}
 				case 3: // bytes over the interesting classes
 					x = rapid.SliceOfN(rapid.SampledFrom([]byte{'a', ' ', '\n', '\t', '\r', 0x0c, 0x1b, 0x7f, 0x80, 0xa0, 0xff, 0xfe, 0xef, 0xbb, 0xbf, 0x00, 0x08, 0x0b, 0x0e, 0x1a, 0x1c, 0x1f, '{', '<', '#', '!'}), 0, 12).Draw(t, "cls")
-				default:
+				case 4:
 					x = vfGenAnyInput(t)
+				default: // long clean text, limit above the default, one byte planted around the limit
+					lx, ll := vfGenLong(t)
+					p := int(ll) + rapid.IntRange(-2, 40).Draw(t, "off")
+					if p >= 0 && p < len(lx) {
+						lx[p] = rapid.SampledFrom([]byte{0x00, 0x01, 0x0b, 0x1a, 0x1f, 0xe9, 0x85}).Draw(t, "planted")
+					}
+					return c07Case{X: lx, Limit: ll, Reader: true, PrevLimit: rapid.SampledFrom([]uint32{0, 16, 3072, 1 << 16}).Draw(t, "prev")}
 				}
 				c := c07Case{X: x, Limit: vfGenLimit(t, len(x))}
 				if rapid.Bool().Draw(t, "reader") {
